@@ -394,12 +394,19 @@ Section Mirror.
      (z(575 - r) = -z(r), ln(first/last) = -ln(last/first); exact here, to 1e-9 m in binary64:
      checked numerically by the rel-mir lines of the differential run) *)
   Hypothesis zf_antisym : forall r f m l, r <= 575 -> zf (575 - r) l m f = zneg (zf r f m l).
-  (* distinct amplitudes are comparable (positive finite floats) *)
-  Hypothesis agt_total : forall a b : amp, a <> b -> agt a b = true \/ agt b a = true.
-  (* sort_unstable_by: a permutation, sorted in descending amplitude; nothing about ties *)
+  (* an amplitude that passes the hit test of matching.rs:80 as `middle`: it exceeds a neighbour that is > 0.0.
+     Only such amplitudes reach the pad-hit sort; in binary64 they are positive and not NaN, in particular
+     neither NaN nor +-0, the values on which `>` is not a total order. *)
+  Definition hit_amp (a : amp) : Prop := exists f, apos f = true /\ agt a f = true.
+  (* distinct HIT amplitudes are comparable (false for arbitrary binary64 values: NaN vs 1.0, +0 vs -0;
+     true for hit amplitudes: Avalanches_float.fgt_total_hit) *)
+  Hypothesis agt_total : forall a b : amp, hit_amp a -> hit_amp b -> a <> b -> agt a b = true \/ agt b a = true.
+  (* sort_unstable_by: a permutation, sorted in descending amplitude on lists of hit amplitudes (the insertion
+     sort is NOT sorted on lists containing NaN); nothing about ties *)
   Hypothesis sortP_perm : forall l, Permutation (sortP l) l.
   Definition descP (x y : zt * amp) : Prop := agt (snd y) (snd x) = false.
-  Hypothesis sortP_sorted : forall l, StronglySorted descP (sortP l).
+  Definition hitsP (l : list (zt * amp)) : Prop := Forall (fun h => hit_amp (snd h)) l.
+  Hypothesis sortP_sorted : forall l, hitsP l -> StronglySorted descP (sortP l).
 
   Notation g := (fun h : zt * amp => (zneg (fst h), snd h)).
 
@@ -446,6 +453,24 @@ Section Mirror.
       + cbn [app] in *. cbn [win]. cbn [win] in IH. rewrite IH. rewrite app_assoc. reflexivity.
   Qed.
 
+  Lemma cond3_hit f m l : cond3 f m l = true -> hit_amp m.
+  Proof.
+    unfold cond3. intros H. apply andb_prop in H as (H & _). apply andb_prop in H as (H & Hm).
+    apply andb_prop in H as (Hf & _). exists f. auto.
+  Qed.
+
+  Lemma win_hits l : forall row, hitsP (win row l).
+  Proof.
+    unfold hitsP. induction l as [|f tl IH]; intros row; cbn [win]. constructor.
+    destruct tl as [|m [|la tl']]; try constructor.
+    apply Forall_app. split; [|apply IH].
+    unfold hit3. destruct (cond3 f m la) eqn:E; constructor; [|constructor].
+    cbn [snd]. eapply cond3_hit; eauto.
+  Qed.
+
+  Lemma pad_hits_hits col t : hitsP (pad_hits_at_t azero apos agt zf col t).
+  Proof. rewrite pad_hits_win. apply win_hits. Qed.
+
   Lemma cond3_sym f m l : cond3 l m f = cond3 f m l.
   Proof. unfold cond3. destruct (apos f), (apos l), (agt m f), (agt m l); reflexivity. Qed.
 
@@ -475,10 +500,11 @@ Section Mirror.
 
   (* a strictly descending list is determined by its multiset *)
   Lemma sorted_unique (s1 s2 : list (zt * amp)) :
+    hitsP s1 ->
     StronglySorted descP s1 -> StronglySorted descP s2 -> Permutation s1 s2 ->
     NoDup (map snd s1) -> s1 = s2.
   Proof.
-    revert s2; induction s1 as [|x t1 IH]; intros s2 S1 S2 HP ND.
+    revert s2; induction s1 as [|x t1 IH]; intros s2 HH S1 S2 HP ND.
     - apply Permutation_nil in HP. auto.
     - destruct s2 as [|y t2]. apply Permutation_sym, Permutation_nil in HP. discriminate.
       apply StronglySorted_inv in S1 as (S1 & F1). apply StronglySorted_inv in S2 as (S2 & F2).
@@ -490,8 +516,11 @@ Section Mirror.
         pose proof (F1 _ Hy) as R1. pose proof (F2 _ Hx) as R2. unfold descP in *.
         assert (Hne : snd x <> snd y).
         { intro E. apply N1. rewrite E. now apply in_map. }
-        destruct (agt_total _ _ Hne) as [G|G]; congruence. }
-      subst y. f_equal. apply IH; auto. eapply Permutation_cons_inv; eauto.
+        assert (Hhx : hit_amp (snd x)) by (inversion HH; auto).
+        assert (Hhy : hit_amp (snd y)).
+        { unfold hitsP in HH. rewrite Forall_forall in HH. apply HH. right. exact Hy. }
+        destruct (agt_total _ _ Hhx Hhy Hne) as [G|G]; congruence. }
+      subst y. f_equal. apply IH; auto. inversion HH; auto. eapply Permutation_cons_inv; eauto.
   Qed.
 
   Lemma sorted_map_g l : StronglySorted descP l -> StronglySorted descP (map g l).
@@ -501,13 +530,25 @@ Section Mirror.
     apply H0 in Hy0. exact Hy0.
   Qed.
 
-  Lemma sortP_mirror ph : NoDup (map snd ph) -> sortP (rev (map g ph)) = map g (sortP ph).
+  Lemma hitsP_perm l l' : Permutation l l' -> hitsP l -> hitsP l'.
+  Proof. unfold hitsP. intros HP H. eapply Permutation_Forall; eauto. Qed.
+
+  Lemma hitsP_map_g l : hitsP l -> hitsP (map g l).
+  Proof. unfold hitsP. rewrite Forall_map. cbn [snd]. auto. Qed.
+
+  Lemma sortP_mirror ph : hitsP ph -> NoDup (map snd ph) -> sortP (rev (map g ph)) = map g (sortP ph).
   Proof.
-    intros ND.
+    intros HH ND.
     assert (HP : Permutation (sortP (rev (map g ph))) (map g ph)).
     { rewrite sortP_perm. apply Permutation_sym, Permutation_rev. }
-    apply sorted_unique; auto.
-    - apply sorted_map_g; auto.
+    assert (HG : hitsP (rev (map g ph))).
+    { eapply hitsP_perm. apply Permutation_rev. apply hitsP_map_g; auto. }
+    assert (HS : hitsP (sortP (rev (map g ph)))).
+    { eapply hitsP_perm. apply Permutation_sym, sortP_perm. exact HG. }
+    apply sorted_unique.
+    - exact HS.
+    - apply sortP_sorted. exact HG.
+    - apply sorted_map_g. apply sortP_sorted. exact HH.
     - rewrite HP. apply Permutation_map, Permutation_sym, sortP_perm.
     - eapply Permutation_NoDup. apply Permutation_sym, (Permutation_map snd HP).
       rewrite map_map. cbn [snd]. exact ND.
@@ -520,7 +561,7 @@ Section Mirror.
   Proof.
     intros Hl Hn. unfold match_column_inputs. rewrite map_flat_map. apply flat_map_ext. intros t.
     destruct (wire_hits_at_t apos idxs inputs t) as [|h wh]; auto.
-    rewrite pad_hits_mirror by auto. rewrite sortP_mirror by auto.
+    rewrite pad_hits_mirror by auto. rewrite sortP_mirror by (auto using pad_hits_hits).
     rewrite (combine_map_r g), !map_map. apply map_ext.
     intros [[w wa] [z pa]]. reflexivity.
   Qed.
@@ -647,7 +688,7 @@ Module Toy.
     av D ws (mirror pads) = map (neg_z Z.opp) (av D ws pads).
   Proof.
     intros. apply mirror_equivariant_lemma; auto.
-    apply zf_antisym. apply agt_total. apply sortP_perm. apply sortP_sorted.
+    apply zf_antisym. intros a b _ _. apply agt_total. apply sortP_perm. intros l _. apply sortP_sorted.
   Qed.
 
   (* ---- events ---- *)
@@ -743,7 +784,7 @@ Proof.
     with (pad_hits_at_t 0%Z Toy.apos Toy.agt Toy.zf
              (pad_inputs_column Toy.P (nth c (Toy.mkpads (Toy.peak 11 100)) [])) 2).
   apply Fin; auto.
-  rewrite !(pad_hits_win 0%Z Toy.apos Toy.agt Toy.zf Z.opp Toy.zf_antisym Toy.agt_total). f_equal. apply map_ext_in.
+  rewrite !(pad_hits_win 0%Z Toy.apos Toy.agt Toy.zf Z.opp Toy.zf_antisym (fun a b _ _ => Toy.agt_total a b)). f_equal. apply map_ext_in.
   intros input Hin. unfold pad_inputs_column in Hin. apply in_map_iff in Hin as (o & <- & Ho).
   unfold Toy.mkpads in Ho.
   assert (Hlen : (length (match o with Some signal => Toy.P signal | None => [] end) <= 2)%nat).
